@@ -320,10 +320,19 @@ def verify_authentication(
         )
 
     auth_method = auth.create(credentials.auth.method)
-    without_digest = reset_digest(message)
+    if message.received_bytes:
+        # The digest covers the message exactly as it was sent (RFC 3414
+        # section 6.3.2). Re-encoding the parsed message is not guaranteed to
+        # reproduce those bytes (f.ex. for different but valid length
+        # encodings), so we zero out the digest in the received bytes.
+        without_digest = message.received_bytes.replace(
+            security_params.auth_params, b"\x00" * 12, 1
+        )
+    else:
+        without_digest = bytes(reset_digest(message))
     is_authentic = auth_method.authenticate_incoming_message(
         credentials.auth.key,
-        bytes(without_digest),
+        without_digest,
         security_params.auth_params,
         security_params.authoritative_engine_id,
     )
